@@ -57,6 +57,8 @@ def gen_plan(seed, tier, index):
         for ln in p['lines']:
             if r.random() < 0.08:
                 ln['dtype'] = 'float64'
+            if r.random() < 0.1:
+                ln['container'] = r.choice(['csc_array', 'csr_matrix'])
             ln['frames'] = r.randint(1, 40) if r.random() < 0.2 else ln['frames']
             x = r.random()
             if x < 0.1:
